@@ -342,6 +342,44 @@ def record_history(seed, nnodes, nsteps, names3):
     return tr
 
 
+def record_wide(seed, n=300, steps=40):
+    """One parent with hundreds of children: positions above 256 (identity vs equality of ints), long child lists."""
+    rnd = random.Random(seed)
+    w = World()
+    for i in range(n):
+        w.new(rnd.choice(["a", "b"]))
+    fields = ("name", "kids", "ns", "content", "tail", "prefix", "attrs", "extras", "store")
+    for c in range(2, n - 5):
+        w.n(1).add_child(w.n(c))
+    tr = {"init": w.pi(fields), "events": []}
+
+    def do(op, args):
+        ok, ret, exc = w.apply(op, args)
+        e = {"op": op, "args": args, "ok": ok, "ret": ret if isinstance(ret, int) else 0, "post": w.pi(fields)}
+        if exc is not None:
+            e["exc"] = type(exc).__name__
+        tr["events"].append(e)
+    free = list(range(n - 5, n + 1))
+    for _ in range(steps):
+        kids = [w.ident(x) for x in w.n(1).children]
+        k = rnd.choice(["shift", "shift", "insert", "remove", "q"])
+        if k == "shift":
+            c = kids[rnd.choice([len(kids) - 1, len(kids) - 2, 256, 257, 255, rnd.randrange(len(kids))])]
+            do("shift", [1, c, rnd.choice("LR"), rnd.random() < 0.5])
+        elif k == "insert" and free:
+            c = free.pop()
+            do("add_child", [1, c, rnd.choice([len(kids), len(kids) - 1, 256, 257, 0])])
+        elif k == "remove":
+            c = kids[rnd.choice([len(kids) - 1, 256, 257, 0])]
+            do("remove_child", [1, c])
+            free.append(c)
+        else:
+            c = kids[rnd.choice([len(kids) - 1, 256, 257, 258])]
+            r = w.n(1).child_index(w.n(c))
+            tr["events"].append({"op": "q", "q": "child_index", "args": [1, c], "ret": -1 if r is None else r, "post": w.pi(fields)})
+    return tr
+
+
 def w_histories(jobs):
     return [record_history(s, n, k, ["a", "b", "c"]) for (s, n, k) in jobs]
 
@@ -412,6 +450,7 @@ def run(rep, tier, seed):
     rnd = random.Random(seed)
     jobs = [(seed * 7919 + i, rnd.randint(12, 20), nst) for i in range(ntr)]
     traces = [t for chunk in parallel(w_histories, jobs) for t in chunk]
+    traces += [record_wide(seed * 13 + i) for i in range(2 if tier == "quick" else 12)]
     for tr in traces:
         for e in tr["events"]:
             if e.get("parent_link_bad"):
